@@ -9,7 +9,7 @@ class Prop:
     id = "C07"
     level = "exploration"
     engine = "VT"
-    quick_runs = 120000
+    quick_runs = 300000
     thorough_runs = 4000000
     rule = ("seeded (start, stop in {None,-9..9}, step in {None,1..8}, form in {ops.slice, source[a:b:c], source[i]}) over one generated "
             "timeline of 0-7 elements (cold/hot/sync; completion, error at any position, or no terminal); emitted values and terminal "
